@@ -261,7 +261,7 @@ def make_enum(sh):
         if variant == 'litpat':
             t1 = TraitInstr(tn, 'i32', err=err, default_case=Ch('td', [None, '=> __dflt(@)']), tag='t1')
             t2 = TraitInstr(tn, 'Y', err=err, tag='t2')
-            la, lb = SimpleInstr('literal', '1', ded=Ch('l0d', [None, 'i32', 'Y'])), Opt(Ch('l0p', [False, True], fork=True), SimpleInstr('literal', '11', ded=Ch('l0d2', ['i32', None, 'Y'])))
+            la, lb = SimpleInstr('literal', '1', ded=Ch('l0d', [None, 'i32', 'Y'])), Opt(Ch('l0p', [False, True], fork=True), SimpleInstr('literal', '11', ded=Ch('l0d2', ['i32', None, 'Y']), tag='literal2'))
             v0 = Member('A', shape='unit', instrs=[la, lb] if sh['kind'] in ('FromOwned', 'OwnedInto') else [lb, la])
             v1 = Member('B', shape='unit', instrs=[SimpleInstr('pattern', '2..=5', ded=Ch('p1d', [None, 'i32'])), MapInstr(Ch('v1n', ['into', 'owned_into', 'ref_into', 'map', 'from']), action=Ch('v1a', [None, '7']), tag='v1')])
             v2 = Member('C', shape='unit', instrs=[GhostInstr(Ch('v2g', ['ghost', 'ghost_owned', 'ghost_ref']), ded=Ch('v2gd', [None, 'i32']), action=Ch('v2a', [None, '{ __gv(@) }']), tag='gv')])
@@ -377,7 +377,7 @@ def make_misuse(sh):
         if variant == 'C1':
             m0 = Member(nm('a'), instrs=[Opt(yes('litp'), SimpleInstr('literal', '1')), Opt(yes('patp'), SimpleInstr('pattern', '_')), Opt(yes('thp'), SimpleInstr('type_hint', 'Struct')),
                                          Opt(yes('fgp'), GhostsInstr(Ch('fgn', ['ghosts', 'ghosts_owned', 'ghosts_ref']), data=[GhostData(('n', 'q'), '1', tag='fq')])),
-                                         Opt(yes('lit2p'), SimpleInstr('literal', '2'))])
+                                         Opt(yes('lit2p'), SimpleInstr('literal', '2', tag='literal2'))])
             return Spec('struct', shape=shape, traits=[tX()], members=[m0, Member(nm('b'), repeat=None)], tys=('X', 'Y', 'Z'))
         if variant == 'C2':
             m1 = Member(nm('b'), ty='P', instrs=[Opt(yes('p1p'), ParentInstr(ded=Ch('p1d', [None, 'X', 'Z']))), Opt(yes('p2p'), ParentInstr(ded=Ch('p2d', [None, 'X', 'Y']))),
@@ -391,8 +391,8 @@ def make_misuse(sh):
             m3 = Member(nm('d'), instrs=[Opt(yes('m3g'), GhostInstr('ghost', action='__g()', tag='g3'))], repeat=None)
             return Spec('struct', shape=shape, traits=[t1], members=[m2, m3], tys=('X', 'Y', 'Z'))
         if variant == 'EA1':
-            v0 = Member('A', shape='unit', instrs=[Opt(yes('l1p'), SimpleInstr('literal', '1', ded=Ch('l1d', [None, 'X', 'Z']))), Opt(yes('l2p'), SimpleInstr('literal', '2', ded=Ch('l2d', [None, 'X', 'Y']))),
-                                                   Opt(yes('vpp'), ParentInstr()), Opt(yes('q1p'), SimpleInstr('pattern', '_', ded=Ch('q1d', [None, 'X', 'Z']))), Opt(yes('q2p'), SimpleInstr('pattern', '3', ded=Ch('q2d', [None, 'X'])))])
+            v0 = Member('A', shape='unit', instrs=[Opt(yes('l1p'), SimpleInstr('literal', '1', ded=Ch('l1d', [None, 'X', 'Z']))), Opt(yes('l2p'), SimpleInstr('literal', '2', ded=Ch('l2d', [None, 'X', 'Y']), tag='literal2')),
+                                                   Opt(yes('vpp'), ParentInstr()), Opt(yes('q1p'), SimpleInstr('pattern', '_', ded=Ch('q1d', [None, 'X', 'Z']))), Opt(yes('q2p'), SimpleInstr('pattern', '3', ded=Ch('q2d', [None, 'X']), tag='pattern2'))])
             return Spec('enum', traits=[TraitInstr('from', 'X', tag='t1'), TraitInstr('from', 'Y', tag='t2')], members=[v0, Member('B', shape='unit')], tys=('X', 'Y', 'Z'))
         if variant == 'EA2':
             t1 = TraitInstr(Ch('t1n', ['map', 'from', 'into', 'try_map']), 'X', err=Ch('t1e', [None, 'Er']), tag='t1')
